@@ -25,7 +25,7 @@ from pathlib import Path
 from .. import boot, canon, pool
 
 ID = 'C10'
-BUDGET = {'quick': 240, 'thorough': 2400}
+BUDGET = {'quick': 480, 'thorough': 2400}
 
 POOL2 = ('a', 'ab')          # 'a' is a string prefix of 'ab' on purpose (prefix-test bugs)
 POOL3 = ('a', 'ab', 'b')
